@@ -279,9 +279,15 @@ fn main() {
         // supply conversations carry bursts of hundreds of items: fewer of them fit the thorough budget
         let total = if focus == Focus::Supply { s.args.budget(20_000, 300_000) } else { s.args.budget(20_000, 500_000) };
         let n = (total * share / 100).max(1);
+        let rule = match focus {
+            Focus::Inactivity => "seeded conversation (1-2 remotes, 2-4 harness-implemented lanes, paced readers, nothing stalled, no failing lane) against the real agent runtime with inactive_timeout 6/12/25 ms of virtual time and idle gaps of 1 ms .. 2 timeouts between the steps, ending with five timeouts of idleness; rules: the runtime never ends by itself less than one timeout after a lane event or a delivered command (virtual instants, exact under the paused clock; work in the very instant of the end is skipped as ambiguous), and it has ended by itself by the end of the final idle period; non-trivial when >= 4 frames were received; distinct by the schedule signature",
+            Focus::Links => "seeded conversation (1-4 remotes, 2-4 harness-implemented lanes speaking the lane byte protocol, byte channels of 2..4096 bytes, paced/stalled/dropped readers, chunked/held sync responses, lane failures, poll jitter; prune_remote_delay 2-20 ms of virtual time in half of the cases, with connections removed for inactivity re-attaching under the same routing id and up to two late requests on the old channel) against the real agent runtime with NodeReporting; reporter snapshots at every checkpoint; non-trivial when >= 4 frames were received; distinct by the schedule signature (global order of (session, frame kind, lane) receipts)",
+            Focus::Supply => "seeded conversation (1-3 remotes, supply and command lanes implemented by the harness, bursts of up to 2000 unique items and runs of items with an empty body, byte channels of 2..4096 bytes, paced/stalled/dropped readers, poll jitter) against the real agent runtime; non-trivial when >= 4 frames were received; distinct by the schedule signature",
+            _ => "seeded conversation (1-4 remotes, 2-4 harness-implemented lanes speaking the lane byte protocol, byte channels of 2..4096 bytes, paced/stalled/dropped readers, chunked/held sync responses, lane failures, poll jitter) against the real agent runtime; non-trivial when >= 4 frames were received; distinct by the schedule signature (global order of (session, frame kind, lane) receipts)",
+        };
         s.part(
             name,
-            "seeded conversation (1-4 remotes, 2-4 harness-implemented lanes speaking the lane byte protocol, byte channels of 2..4096 bytes, paced/stalled/dropped readers, chunked/held sync responses, lane failures, poll jitter) against the real agent runtime; non-trivial when >= 4 frames were received; distinct by the schedule signature (global order of (session, frame kind, lane) receipts)",
+            rule,
             false,
             n,
             |_i, rng, out| {
